@@ -1,0 +1,12 @@
+//go:build !verif
+
+package concurrent
+
+func verifPermute[E any](collection []E) []E { return collection }
+
+func verifEnter() {}
+
+func verifExit() {}
+
+// VerifPoint is a no-op unless built with the verif tag.
+func VerifPoint(name string) {}
